@@ -4,16 +4,18 @@ use crate::trace::{bytes, guard, words16, Tracer};
 use gm_sm4::{CipherMode, Sm4Cipher, Sm4CipherMode};
 use serde_json::{json, Value};
 
-fn parse_rk(dbg: &str) -> Vec<u32> {
-    // "Sm4Cipher { rk: [1, 2, ...] }"
-    let a = dbg.find('[').unwrap();
-    let b = dbg.rfind(']').unwrap();
-    dbg[a + 1..b].split(',').map(|s| s.trim().parse::<u32>().unwrap()).collect()
+/// the round keys as the object's `Debug` rendering shows them ("Sm4Cipher { rk: [1, 2, ...] }"): gm-sm4 has no hook, and a cipher object whose
+/// rendering is something else (a refactored struct) is simply logged WITHOUT round keys -- the block events still bind it to the specification
+fn parse_rk(dbg: &str) -> Option<Vec<u32>> {
+    let a = dbg.find("rk: [")? + 4;
+    let b = a + dbg[a..].find(']')?;
+    let v: Option<Vec<u32>> = dbg[a + 1..b].split(',').map(|s| s.trim().parse::<u32>().ok()).collect();
+    v.filter(|v| v.len() == 32)
 }
 
 fn new_cipher(t: &mut Tracer, sess: &str, key: &[u8]) -> Option<Sm4Cipher> {
     let out = guard(|| Sm4Cipher::new(key));
-    let rk = match out.ok() { Some(c) => words16(&parse_rk(&format!("{:?}", c))), None => json!([]) };
+    let rk = match out.ok().and_then(|c| parse_rk(&format!("{:?}", c))) { Some(v) => words16(&v), None => json!([]) };
     t.emit(sess, "sm4.new", json!({"prop": "C02", "key": bytes(key), "rk": rk, "outcome": out.name(), "detail": out.detail()}));
     match out { crate::trace::Outcome::Ok(c) => Some(c), _ => None }
 }
@@ -57,6 +59,12 @@ pub fn drive_block(t: &mut Tracer, tier: &str, seed: u64, plan: Option<String>) 
             for call in v["seq"].as_array().unwrap() {
                 let op = call[0].as_str().unwrap();
                 let src = call[1].as_str().unwrap();
+                if src == "badlen" {
+                    // a call the object must refuse (15, 17 or 0 bytes); whatever it answers, the NEXT calls on the same object are judged as usual
+                    let bl = [15usize, 17, 0, 1, 31][rng.below(5) as usize]; let bad = rng.bytes(bl);
+                    let _ = block_op(t, &sess, &c, op == "enc", "badlen", &bad);
+                    continue;
+                }
                 let block = match src { "fresh" => rng.bytes(16), "prev" => prev_out.clone(), _ => prev_in.clone() };
                 if block.len() != 16 { continue; }
                 prev_out = block_op(t, &sess, &c, op == "enc", src, &block);
@@ -110,10 +118,22 @@ fn mode_of(m: &str) -> CipherMode {
     match m { "cbc" => CipherMode::Cbc, "cfb" => CipherMode::Cfb, "ofb" => CipherMode::Ofb, _ => CipherMode::Ctr }
 }
 
+// One mode object per (key, mode) for the whole run: a program keeps such an object and calls it many times -- with different IVs, lengths and
+// directions, and with calls that fail in between.  The specification is stateless per call, so any state the object carries shows as a deviation.
+thread_local! { static MODE_OBJS: std::cell::RefCell<Vec<((Vec<u8>, String), Sm4CipherMode)>> = std::cell::RefCell::new(vec![]); }
 fn mode_event(t: &mut Tracer, sess: &str, mode: &str, enc: bool, key: &[u8], iv: &[u8], g: Option<&Gen>, data: &[u8]) -> Option<Vec<u8>> {
     let out = guard(|| {
-        let c = Sm4CipherMode::new(key, mode_of(mode))?;
-        if enc { c.encrypt(data, iv) } else { c.decrypt(data, iv) }
+        MODE_OBJS.with(|objs| {
+            let mut objs = objs.borrow_mut();
+            let k = (key.to_vec(), mode.to_string());
+            if !objs.iter().any(|(kk, _)| *kk == k) {
+                let c = Sm4CipherMode::new(key, mode_of(mode))?;
+                if objs.len() >= 64 { objs.remove(0); }
+                objs.push((k.clone(), c));
+            }
+            let c = &objs.iter().find(|(kk, _)| *kk == k).unwrap().1;
+            if enc { c.encrypt(data, iv) } else { c.decrypt(data, iv) }
+        })
     });
     let o = out.ok().cloned();
     let mut f = json!({"prop": "C07", "mode": mode, "dir": if enc { "enc" } else { "dec" }, "key": bytes(key), "iv": bytes(iv),
